@@ -146,6 +146,21 @@ func oracleC03Repeat(p *Pair, env *Env, a [][]byte) *Failure {
 	return nil
 }
 
+// args: repetitions (length-coded), style of the configuration file, then a gen.run argument vector
+func oracleC03RepeatYaml(p *Pair, env *Env, a [][]byte) *Failure {
+	n := len(a[0])
+	op := Op{"gen.runYaml", a[1:]}
+	first := p.Impl(op, env.timeout)
+	for i := 1; i < n; i++ {
+		r := p.Impl(op, env.timeout)
+		if r.Status != first.Status || (r.Status == "ok" && !bytes.Equal(r.Out[0], first.Out[0])) {
+			return &Failure{What: "generate is not deterministic: two executions on the same files and configuration differ",
+				Detail: fmt.Sprintf("program %q\nconfiguration (%s) %q\nfirst  %s\nlater  %s", a[8], a[1], a[2:8], first.String(), r.String())}
+		}
+	}
+	return nil
+}
+
 // fresh processes of the binary on a sandbox tree
 func oracleC03CLI(p *Pair, env *Env, a [][]byte) *Failure {
 	n := len(a[0])
@@ -276,6 +291,22 @@ func genC03(r *rand.Rand, tier string, env *Env) []Case {
 		}
 		cases = append(cases, c)
 	}
+	// the configuration file in spellings whose loading could depend on an order (keys differing only in case, unknown keys)
+	nY := 12
+	if tier == "thorough" {
+		nY = 120
+	}
+	for i := 0; i < nY; i++ {
+		var cb [][]byte
+		for _, c := range pick(r, cfgMenu) {
+			cb = append(cb, []byte(c))
+		}
+		style := []string{"case-keys", "padded", "case-keys", "omit-empty"}[i%4]
+		prog := "##!> cmdline " + pick(r, []string{"unix", "windows"}) + "\n" + genCmdWord(r) + "\n" + pick(r, []string{"ls@", "cat~", "a b"}) + "\n##!<\n"
+		yargs := append(append([][]byte{[]byte(style)}, cb...), []byte(prog))
+		cases = append(cases, Case{Kind: "yaml-style:" + style, Ops: []Op{{"gen.runYaml", yargs}},
+			Oracles: []Op{{"c03.repeatYaml", append([][]byte{bytes.Repeat([]byte{'x'}, 2*reps)}, yargs...)}}})
+	}
 	// whole trees through every command, several stale rules
 	nTrees, treeReps := 3, 4
 	if tier == "thorough" {
@@ -319,6 +350,7 @@ func oracleC03Sites(p *Pair, env *Env, a [][]byte) *Failure {
 
 func init() {
 	oracles["c03.repeat"] = oracleC03Repeat
+	oracles["c03.repeatYaml"] = oracleC03RepeatYaml
 	oracles["c03.cli"] = oracleC03CLI
 	oracles["c03.sites"] = oracleC03Sites
 	oracles["c03.tree"] = oracleC03Tree
